@@ -379,3 +379,40 @@ def c11_split_profile(tier, rng):
                 "obligation": "C11.split_profile_twins", "inputs": {"seed": base + k}, "observed": p[:2], "required": "mirrored profiles",
                 "replay_call": "contracts.c_equivariance:replay_split_profile"}]}
     return {"cases": n, "bound": "%d random configurations" % n, "violations": [], "samples": [{"seed": base}]}
+
+
+# ---- the strand vote is symmetric: mirrored introns with swapped strands and swapped tails give the swapped strand ----------------------------------
+@finite("C11.strand_vote_mirror", ["C11"], note="the real StrandDetector.get_strand / get_clean_strand on every assignment of '+', '-', '.' to <= 5 introns "
+        "x the four polyA/polyT flag pairs, against the same call on the mirror image (coordinates reflected, intron order reversed, '+' and '-' "
+        "swapped, polyA and polyT swapped): the answer is the swapped strand - stated as a symmetry, without saying what the answer is")
+def c11_strand_vote_mirror(tier, rng):
+    import itertools
+    gi = native.repo_import("src/gene_info.py")
+    flip = {"+": "-", "-": "+", ".": "."}
+    L = 10000
+    obl = dis = 0
+    viol = []
+    for n in range(0, 6):
+        introns = [(100 * k + 10, 100 * k + 60) for k in range(n)]
+        mirrored = [(L - b, L - a) for a, b in reversed(introns)]
+        for strands in itertools.product("+-.", repeat=n):
+            for pa in (False, True):
+                for pt in (False, True):
+                    obl += 1
+                    d = gi.StrandDetector(None)
+                    for i, s_ in zip(introns, strands):
+                        d.set_strand(i, s_)
+                    m = gi.StrandDetector(None)
+                    for i, s_ in zip(mirrored, reversed(strands)):
+                        m.set_strand(i, flip[s_])
+                    a = (d.get_strand(list(introns), pa, pt), d.get_clean_strand(list(introns)))
+                    b = (m.get_strand(list(mirrored), pt, pa), m.get_clean_strand(list(mirrored)))
+                    if b == (flip[a[0]], flip[a[1]]):
+                        dis += 1
+                    elif len(viol) < 3:
+                        viol.append({"obligation": "C11.strand_vote_mirror.%s.%s%s" % ("".join(strands).replace("+", "p").replace("-", "m").replace(".", "n") or "none",
+                                                                                          "A" if pa else "", "T" if pt else ""),
+                                     "inputs": {"intron_strands": list(strands), "has_polya": pa, "has_polyt": pt},
+                                     "observed": {"original": a, "mirror": b}, "required": "mirror == swapped original"})
+    return {"obligations": obl, "discharged": dis, "violations": viol, "cases": obl, "exhaustive": True,
+            "bound": "all strand assignments of <= 5 introns x 4 tail flag pairs", "samples": [{"intron_strands": ["+", "-"], "has_polya": True}]}
